@@ -43,7 +43,7 @@ def run(tier):
     rnd = random.Random(common.seed())
     common.build("plain")
     wd = common.workdir("c11")
-    r = common.tlc("DeltaImpl", "MC_DeltaImpl.cfg", workers=8, timeout=600)
+    r = common.tlc("DeltaImpl", "MC_DeltaImpl.cfg" if tier != "thorough" else common.cfg_variant("MC_DeltaImpl.cfg", wd, NC=5, Local="{2, 4}", MaxCrash=3), workers=8, timeout=1800, heap="8g")
     ck.require_ok("DeltaImpl", r); ck.add_tlc("DeltaImpl/MC_DeltaImpl.cfg (PartialNeverValid, NoRefetch, Converges after up to 2 crashes at any step)", r)
     plans = []
     for bi, (name, A, B, T, limit, frag, opts) in enumerate(bases(rnd, tier)):
